@@ -59,6 +59,11 @@ func (s *latSvc) Get(ctx context.Context, name string) (*api.SecretValue, error)
 		return nil, ctx.Err()
 	}
 	if b[0] == 'f' {
+		if len(s.starts)%2 == 0 {
+			// a failure of the client's own making that wraps a context error (its per-request
+			// timeout) while every caller's context is alive: a failed lookup like any other
+			return nil, fmt.Errorf("injected lookup failure: %w", context.DeadlineExceeded)
+		}
 		return nil, errors.New("injected lookup failure")
 	}
 	return &api.SecretValue{Version: 1, Value: []byte("looked-up")}, nil
